@@ -673,8 +673,87 @@ func search(c *enum.Ctx, base kase, depth int, states, trans, traces *atomic.Int
 	}
 }
 
+// sharedRowClone: a Multi that holds one row object at two positions (what Add(b, b) makes).  What RevComp
+// makes of such a container is not judged (the row would be turned twice); Clone is: the copy shares nothing
+// with the original, so writing on every row of either leaves the other as it was.
+func sharedRowClone(c *enum.Ctx) {
+	for _, q := range []bool{false, true} {
+		for _, layout := range [][]int{{0, 1, 1}, {0, 0}, {1, 0, 1}, {0, 1, 2, 1}} {
+			k := map[string]interface{}{"family": "Clone of a Multi that holds a row object at two positions", "quality_rows": q, "row_objects_by_position": layout}
+			c.Doing(0, k)
+			c.Eval()
+			c.Nontrivial(enum.J(k))
+			c.Guard("shared-row/panic", k, func() {
+				mk := func(i int) seq.Sequence {
+					w := []string{"acG", "n-", "Gca"}[i]
+					if q {
+						ql := make([]alphabet.QLetter, len(w))
+						for j := range ql {
+							ql[j] = alphabet.QLetter{L: alphabet.Letter(w[j]), Q: alphabet.Qphred(10 + 3*i + j)}
+						}
+						s := linear.NewQSeq(fmt.Sprint("r", i), ql, alphabet.DNAgapped, alphabet.Sanger)
+						s.SetOffset(i)
+						return s
+					}
+					s := linear.NewSeq(fmt.Sprint("r", i), alphabet.BytesToLetters([]byte(w)), alphabet.DNAgapped)
+					s.SetOffset(i)
+					return s
+				}
+				objs := []seq.Sequence{mk(0), mk(1), mk(2)}
+				var rows []seq.Sequence
+				for _, i := range layout {
+					rows = append(rows, objs[i])
+				}
+				m, err := multi.NewMulti("m", rows, seq.DefaultConsensus)
+				if err != nil {
+					c.Fail("shared-row/new", k, "NewMulti: %v", err)
+					return
+				}
+				show := func(x *multi.Multi) string {
+					out := ""
+					for i := 0; i < x.Rows(); i++ {
+						r := x.Row(i)
+						out += fmt.Sprintf("%s[%d,%d)", r.Name(), r.Start(), r.End())
+						for p := r.Start(); p < r.End(); p++ {
+							out += fmt.Sprintf("%c%d", r.At(p).L, r.At(p).Q)
+						}
+						out += " "
+					}
+					return out
+				}
+				scribbleAll := func(x *multi.Multi) {
+					for i := 0; i < x.Rows(); i++ {
+						r := x.Row(i)
+						for p := r.Start(); p < r.End(); p++ {
+							r.Set(p, alphabet.QLetter{L: 't', Q: 1})
+						}
+						if so, ok := r.(interface{ SetOffset(int) error }); ok {
+							so.SetOffset(r.Start() + 7)
+						}
+					}
+				}
+				before := show(m)
+				cl := m.Clone().(*multi.Multi)
+				if got := show(cl); got != before {
+					c.Fail("shared-row/clone-differs", k, "the clone reads %s, the original %s", got, before)
+				}
+				scribbleAll(cl)
+				if got := show(m); got != before {
+					c.Fail("shared-row/clone-not-independent", k, "writing on every row of the clone changed the original from %s to %s", before, got)
+				}
+				cl2 := m.Clone().(*multi.Multi)
+				scribbleAll(m)
+				if got := show(cl2); got != before {
+					c.Fail("shared-row/clone-not-independent", k, "writing on every row of the original changed a clone taken before from %s to %s", before, got)
+				}
+			})
+		}
+	}
+}
+
 func run(c *enum.Ctx) {
-	c.Rule("initial objects: linear.Seq/QSeq for every letter string of length 0..3 (algebra-only for 4..5) over paired letters {a,c,G,n,-} (and RNA/redundant alphabets on fixed words), alignment.Seq/QSeq grids 1..3 rows x 0..4 columns, multi.Multi with every layout of 1..3 rows (offsets 0..2, lengths 1..3; plain and quality rows), multi.Set; then breadth-first search over operation sequences of depth <=3 (thorough 4; linear 4/5) over {RevComp, Reverse, Clone-and-continue-on-copy, Clone-and-keep, Set first, Set last, SetOffset, Delete row, Append (the letter depends on the step), go-on-with-the-other-copy, RevComp of the first / last row through its row view, Reverse of the first row}; three-row Multi layouts with an empty row; rows left of the origin (negative odd and even spans); rows that share a name or have none; objects all of whose rows lie at offsets of +-2^40 and just around +-2^31; the size ladder 7..4097 (thorough 16385) - every 2^k-1, 2^k, 2^k+1 (also 3*2^k, 10^j-1, 10^j, 10^j+1, 5*10^j) letters / columns / row length - for every kind under nine fixed operation lists; linear sequences also start emptied (length 0 over storage of two letters); after every operation the object's snapshot (row names, coordinates, strands, letters, qualities) is related to the previous one and every retained clone/original must be unchanged; states de-duplicated on the snapshot of the object plus retained copies (first two levels unmerged); non-trivial = every applicable operation sequence")
+	sharedRowClone(c)
+	c.Rule("initial objects: linear.Seq/QSeq for every letter string of length 0..3 (algebra-only for 4..5) over paired letters {a,c,G,n,-} (and RNA/redundant alphabets on fixed words), alignment.Seq/QSeq grids 1..3 rows x 0..4 columns, multi.Multi with every layout of 1..3 rows (offsets 0..2, lengths 1..3; plain and quality rows), multi.Set; then breadth-first search over operation sequences of depth <=3 (thorough 4; linear 4/5) over {RevComp, Reverse, Clone-and-continue-on-copy, Clone-and-keep, Set first, Set last, SetOffset, Delete row, Append (the letter depends on the step), go-on-with-the-other-copy, RevComp of the first / last row through its row view, Reverse of the first row}; three-row Multi layouts with an empty row; rows left of the origin (negative odd and even spans); rows that share a name or have none; Clone of a Multi that holds one row object at two positions; objects all of whose rows lie at offsets of +-2^40 and just around +-2^31; the size ladder 7..4097 (thorough 16385) - every 2^k-1, 2^k, 2^k+1 (also 3*2^k, 10^j-1, 10^j, 10^j+1, 5*10^j) letters / columns / row length - for every kind under nine fixed operation lists; linear sequences also start emptied (length 0 over storage of two letters); after every operation the object's snapshot (row names, coordinates, strands, letters, qualities) is related to the previous one and every retained clone/original must be unchanged; states de-duplicated on the snapshot of the object plus retained copies (first two levels unmerged); non-trivial = every applicable operation sequence")
 	c.Assume("column-stored alignments are used at offset 0 (their column accessors take raw indices)", "single Reverse is checked against its documented meaning (letters reversed); Multi row coordinates after Reverse are not constrained")
 	depthLin, depthOther := 4, 3
 	if !c.Quick {
